@@ -7,11 +7,11 @@ Import ListNotations.
 
 (* how many queue entries the drain loop has processed *)
 Definition qidx (ph : aqphase) (n : nat) : nat :=
-  match ph with AQueueing => 0 | ADraining k => k | ADrained => n end.
+  match ph with AQueueing => 0 | ADraining k | ADrainWait k => k | ADrained => n end.
 Definition iclass (i : ipc_t) : nat :=
   match i with INone | IRun | IAcked | IRet => 0 | IDrain => 1 | _ => 2 end.
 Definition pclass (ph : aqphase) : nat :=
-  match ph with AQueueing => 0 | ADraining _ => 1 | ADrained => 2 end.
+  match ph with AQueueing => 0 | ADraining _ | ADrainWait _ => 1 | ADrained => 2 end.
 Definition pdone (s : ppc_t) : bool := match s with PDone => true | _ => false end.
 
 (* chronological projections of the (newest-first) trace *)
